@@ -26,6 +26,6 @@ one() {
   git -C /repo worktree remove --force "$WT" >/dev/null 2>&1; rm -rf "$EV"
 }
 export -f one; export BIN IDS
-printf '%s\n' "$@" | xargs -P 4 -I{} bash -c 'one {}' >> "$OUT"
+printf '%s\n' "$@" | xargs -P 8 -I{} bash -c 'one {}' >> "$OUT"
 rm -f "$BIN"
 echo DONE >> "$OUT"
